@@ -11,6 +11,8 @@ The external solvers are parameters (their raw answer is an input of the wrapper
 -/
 import Rooc.Proofs.Cert
 import Rooc.Proofs.SolverWrap
+import Rooc.Proofs.ComposeNames
+import Rooc.Proofs.ComposeSimplexExamples
 import Mathlib.Data.Rat.Floor
 namespace Rooc.Props.C04
 open Rooc Rooc.Cert Rooc.SolverWrap
@@ -179,5 +181,87 @@ example : @checkPoint ℚ (fieldExact ℚ)
     rw [Int.floor_eq_iff]; constructor <;> norm_num
   simp [checkPoint, rowHolds, domsHold, domHolds, roundK, absK]
   norm_num [hfl]
+
+/-! ### `as_lp_solution` ∘ C13: the solution handed back by the tableau simplex
+
+`asLpSolution_feasible` is (ii) of DESIGN.md §6 C04: a feasible point of the standard form of `lm` is mapped back BY
+NAME (`asLpAssignment`: `v = $p‹v› − $m‹v›`, `$sl_ / $su_ / $a_` columns dropped) to exactly C13's positional
+`preimage`, hence (C13 `bwd`) to a feasible point of `lm` with the same objective, and every variable of `lm` gets
+exactly one value.  Helpers: `Rooc/Proofs/ComposeNames.lean` (closed form of the generated names
+`ComposeNames.standardize_vars`, the recombination `asLp_closed`, `closed_perm_back`).
+PARTIAL by a genuine defect: the names of `lm` must be pairwise distinct and `plainName` (no internal prefix);
+`asLpAssignment_prefix_collision_counterexample` above is the excluded region. -/
+section AsLpSolution
+open StdSem StdMain ComposeSimplex
+attribute [local instance] exactArith
+
+/-- **`as_lp_solution` maps a feasible point of the standard form back to a feasible point of the original.**
+`y` : any feasible point of the standard form `s` of `lm` (C13 `StdFeasible`: one value per column, all `≥ 0`, every
+equality holds), `value` : whatever is reported as objective.  Then the by-name assignment names every variable of
+`lm` exactly once, `value_of` returns for the `i`-th variable the `i`-th component of `preimage lm y`, that point
+satisfies every row and every declared bound of `lm`, and its objective is the one the standard form records. -/
+theorem asLpSolution_feasible_partial {lm : LinModel (Ext K)} (hW : WF lm) (hnd : lm.vars.Nodup)
+    (hpl : lm.vars.all plainName = true) {s : StdModel (Ext K)} (hs : Standardize.standardize lm = .ok s)
+    (y : List K) (hF : StdFeasible s y) (value : Ext K) :
+    ((asLpSolution s.vars (y.map Ext.fin) value).assignment.map (·.1)).Perm lm.vars ∧
+    (∀ i (hi : i < lm.vars.length),
+      (asLpSolution s.vars (y.map Ext.fin) value).valueOf (lm.vars[i]) =
+        some (Val.real (Ext.fin ((preimage lm y).getD i 0)))) ∧
+    LinFeasible lm (preimage lm y) ∧ stdObj s y = obj lm (preimage lm y) := by
+  have hpl' : ∀ v ∈ lm.vars, ComposeNames.plain v = true := fun v hv => (List.all_eq_true.mp hpl) v hv
+  obtain ⟨hperm, hval⟩ := ComposeNames.asLp_standardize lm hW hnd hpl' hs y hF.len
+  refine ⟨hperm, fun i hi => ?_, Rooc.StdMain.bwd lm hW hs y hF⟩
+  rw [valueOf_first_duplicate_wins]
+  show (List.find? _ (asLpAssignment s.vars (y.map Ext.fin))).map _ = _
+  rw [hval i hi]
+  rfl
+
+/-- **the `LpSolution` of `solve_real_lp_problem_slow_simplex`, end to end at exact arithmetic** (C13 ∘ C14 ∘
+`as_lp_solution`): when the loop stops `Finished` on a canonical feasible tableau of the standard form of a well-formed
+`lm` (distinct plain names), the returned solution — assignment `as_lp_solution(variables_values)`, value
+`optimal_value` — names every variable of `lm` exactly once, the point `x` it denotes is feasible for `lm`, no feasible
+point is better in `lm`'s direction, and the reported value is `obj lm x`. -/
+theorem slow_simplex_solution_exact_partial {lm : LinModel (Ext K)} (hW : WF lm) (hnd : lm.vars.Nodup)
+    (hpl : lm.vars.all plainName = true) {s : StdModel (Ext K)} (hs : Standardize.standardize lm = .ok s)
+    {T : Tab K} (hT : CanonicalFor T (stdK s)) (stallExtra limit : Nat) (prefer : List Nat)
+    (hfin : (Tableau.solve (0:K) stallExtra limit prefer T).result = .ok ()) :
+    ∃ x : List K,
+      LinFeasible lm x ∧
+      (∀ x', LinFeasible lm x' →
+        (lm.optType = .min → obj lm x ≤ obj lm x') ∧ (lm.optType = .max → obj lm x' ≤ obj lm x)) ∧
+      (returnedSolution s (Tableau.solve (0:K) stallExtra limit prefer T).final).value = Ext.fin (obj lm x) ∧
+      ((returnedSolution s (Tableau.solve (0:K) stallExtra limit prefer T).final).assignment.map (·.1)).Perm lm.vars ∧
+      ∀ i (hi : i < lm.vars.length),
+        (returnedSolution s (Tableau.solve (0:K) stallExtra limit prefer T).final).valueOf (lm.vars[i]) =
+          some (Val.real (Ext.fin (x.getD i 0))) := by
+  obtain ⟨hfeas, hopt, hvalue⟩ := finished_optimal hW hs hT stallExtra limit prefer hfin
+  have hF := finished_stdFeasible hT stallExtra limit prefer hfin
+  obtain ⟨hperm, hval, _, _⟩ := asLpSolution_feasible_partial hW hnd hpl hs _ hF
+    (Ext.fin (Tableau.optimalValue (Tableau.solve (0:K) stallExtra limit prefer T).final))
+  exact ⟨_, hfeas, hopt, by rw [← hvalue]; rfl, hperm, hval⟩
+
+/-! #### non-vacuity (`K = ℚ`) -/
+section examples
+attribute [local instance 2000] fieldExact
+open ComposeSimplex
+
+/-- a split free variable: `min y s.t. y ≥ −3`, `y` free; the standard form has columns `$py, $my, $su_1`; the feasible
+point `(0, 3, 0)` is mapped back by `as_lp_solution` to `y = −3`, which is feasible for the original. -/
+example : (asLpSolution exFreeStd.vars ([0, 3, 0].map Ext.fin) (Ext.fin (-3))).valueOf "y" = some (Val.real (Ext.fin (-3 : ℚ))) ∧
+    LinFeasible exFree [-3] := by
+  obtain ⟨_, hval, hfeas, _⟩ := asLpSolution_feasible_partial exFree_wf (by simp [exFree]) (by decide) exFree_std
+    [0, 3, 0] exFree_point (Ext.fin (-3))
+  rw [exFree_preimage] at hval hfeas
+  exact ⟨by simpa [exFree] using hval 0 (by simp [exFree]), hfeas⟩
+
+/-- `slow_simplex_solution_exact_partial` applies to `min −x s.t. x ≤ 2, x ≥ 0` (tableau `exT`, one pivot): the
+hypotheses are jointly satisfiable. -/
+example : ∃ x : List ℚ, LinFeasible exMin x ∧ (∀ x', LinFeasible exMin x' → obj exMin x ≤ obj exMin x') := by
+  obtain ⟨x, hx, hopt, _⟩ := slow_simplex_solution_exact_partial exMin_wf (by simp [exMin]) (by decide) exMin_std
+    exT_canonicalFor 1 10 [] exT_solve.1
+  exact ⟨x, hx, fun x' hx' => (hopt x' hx').1 rfl⟩
+
+end examples
+end AsLpSolution
 
 end Rooc.Props.C04
